@@ -171,6 +171,8 @@ def apply(I, st, inst, node, nidx, callee, args, term, dty, line):
         v = args[0]
         if name in ("new_unchecked",):
             E("NONNULL_UNCHECKED", ptr=h(v))
+        if path == "core::mem::ManuallyDrop::<T>::new":
+            E("MD_NEW", what=h(v))       # the value's destructor is suppressed from here on (mem::forget is exactly this)
         return v
     if path == "core::ptr::NonNull::<T>::new":
         return ("nonnull_opt", h(args[0]))
@@ -188,7 +190,7 @@ def apply(I, st, inst, node, nidx, callee, args, term, dty, line):
         to = ty_str(garg(I, inst, callee, 1))
         if isinstance(v, tuple) and v and v[0] == "ptr":
             return ("ptr", v[1], v[2], to)
-        return ("ptr", ("PBASE", h(v)), Poly(), to)
+        return v      # an opaque pointer value stays itself (exactly what an `as` cast between pointer types does)
     if path in ("core::ptr::const_ptr::<impl *const T>::add", "core::ptr::mut_ptr::<impl *mut T>::add",
                 "core::ptr::const_ptr::<impl *const T>::sub", "core::ptr::mut_ptr::<impl *mut T>::sub",
                 "core::ptr::const_ptr::<impl *const T>::offset", "core::ptr::mut_ptr::<impl *mut T>::offset"):
@@ -231,6 +233,17 @@ def apply(I, st, inst, node, nidx, callee, args, term, dty, line):
         ety = ty_str(garg(I, inst, callee, 0))
         E("COPY", prim=name, src=h(args[0]), dst=h(args[1]), n=as_poly(args[2]), ety=ety)
         return ("unit", "()")
+    if path in ("core::ptr::const_ptr::<impl *const T>::copy_to", "core::ptr::mut_ptr::<impl *mut T>::copy_to",
+                "core::ptr::const_ptr::<impl *const T>::copy_to_nonoverlapping", "core::ptr::mut_ptr::<impl *mut T>::copy_to_nonoverlapping"):
+        ety = ty_str(garg(I, inst, callee, 0))
+        E("COPY", prim="copy_nonoverlapping" if name.endswith("nonoverlapping") else "copy", src=h(args[0]), dst=h(args[1]), n=as_poly(args[2]), ety=ety)
+        return ("unit", "()")
+    if path in ("core::ptr::mut_ptr::<impl *mut T>::copy_from", "core::ptr::mut_ptr::<impl *mut T>::copy_from_nonoverlapping"):
+        ety = ty_str(garg(I, inst, callee, 0))
+        E("COPY", prim="copy_nonoverlapping" if name.endswith("nonoverlapping") else "copy", src=h(args[1]), dst=h(args[0]), n=as_poly(args[2]), ety=ety)
+        return ("unit", "()")
+    if path == "core::ptr::eq":
+        return ("pcmp", "Eq", h(args[0]), h(args[1]))
     if path == "core::ptr::swap_nonoverlapping":
         ety = ty_str(garg(I, inst, callee, 0))
         E("SWAP", prim=name, a=h(args[0]), b=h(args[1]), n=as_poly(args[2]), ety=ety)
@@ -369,6 +382,8 @@ def apply(I, st, inst, node, nidx, callee, args, term, dty, line):
                 return args[1]
             return I.wrap(("div_or", v[2], v[3], h(args[1])), dty)
         return I.wrap(("optop", name, h(args)), dty)
+    if path in ("core::ops::Bound::<&T>::cloned", "core::ops::Bound::<&T>::copied"):
+        return ("bcloned", h(args[0]))      # the same bound by value: same variant, payload dereferenced
     if path in ("core::option::Option::<T>::map_or", "core::option::Option::<T>::is_some", "core::option::Option::<T>::is_none",
                 "core::option::Option::<T>::map", "core::option::Option::<T>::ok_or", "core::option::Option::<T>::is_some_and"):
         return I.wrap(("optop", name, h(args)), dty)
